@@ -19,6 +19,12 @@ CHECKS = {
          "§5 C14", "Lean 4 proof (permutation invariance via an order-free characterisation) + cross-process differential run"),
  "C12": ("proof, for every flag codec / enumeration / the AI-script and hit-point codecs as regenerated from the source, of number->rich->number and rich->number->rich exactness on the WHOLE domain (statements over all natural numbers, proved by induction on bits / membership, not by enumeration), injectivity, and rejection of every non-member number; plus exhaustive correspondence of the model with the real helpers",
          "§5 C12", "Lean 4 proof (bit induction, finite-table obligations by decide +kernel) + ast translator of bit layouts/enums + exhaustive differential correspondence"),
+ "C15": ("proof over an abstract file system that each file-writing entry point, as modelled from its regenerated call sequence, refuses with FileExistsError and leaves the file system unchanged when the destination exists without opt-in (for every file system), touches only the destination with opt-in, that every overwrite flag defaults to refuse and that the exists-guard precedes the first write; partial: the real file system and StormLib are exercised by the harness, not proved",
+         "§5 C15", "Lean 4 proof over an abstract FS + ast translator of defaults and call sequences + real-FS differential run"),
+ "C16": ("proof by complete enumeration in the kernel of every single fault (before / after / part-way) at every operation of the modelled save, audio-import and read procedures, for destination absent and pre-existing, flag on/off, 0..3 audio members, encoding ok/raising: base unchanged, destination previous-or-complete, no work files; the call sequence is regenerated from the source and proved equal to the modelled one; partial: StormLib and the OS are hypotheses, validated by injecting a failure into every real call",
+         "§5 C16", "Lean 4 proof by enumeration of the fault space of a step-machine model + ast translator of the step list + real fault injection into every StormLib / file-system call"),
+ "C17": ("proof under explicit StormLib hypotheses (archive = member map, put replaces one member) that the stored scenario is the encoder's bytes, other members are preserved, imported files are stored under their canonical member with identical bytes, and that the WAV duration is floor(1000*frames/rate); partial: StormLib/mutagen are trusted and validated on the corpus archives",
+         "§5 C17", "Lean 4 proof over a member-map archive model + real archive round-trip run"),
  "C18": ("proof by complete enumeration in the kernel (decide +kernel, split over 16 files): for every one of the package's modules taken as the first import, the import-execution model over the regenerated import graph terminates without ImportError and every loaded registry holds exactly the model classes' ids, each registered once; partial: CPython's import machinery is modelled (tied by importing each module in a fresh interpreter)",
          "§5 C18", "Lean 4 proof by complete enumeration over the generated import graph + ast translator + exhaustive fresh-interpreter correspondence"),
  "C19": ("proof that the decoder model is total (well-founded recursion on the remaining input) and that every accepted input re-encodes to bytes that decode to the same model (c19_writable, for all byte strings); tied to the code by correspondence on a malformed-input stream",
